@@ -1,6 +1,8 @@
 package gen
 
 import (
+	"math"
+	"math/big"
 	"sort"
 	"strconv"
 	"strings"
@@ -385,6 +387,46 @@ func (g *G) number() *Node {
 		return g.leaf("ScalarDnumber", g.R.Pick("9223372036854775808", "0xFFFFFFFFFFFFFFFF", "01000000000000000000000", "0b1111111111111111111111111111111111111111111111111111111111111111"))
 	case 5:
 		return g.leaf("ScalarLnumber", "9223372036854775807")
+	case 6:
+		// one digit string under several radix prefixes: whether it still is an integer depends on the radix
+		// (the expectation is computed with math/big: an integer literal above 2^63-1 is a float literal)
+		n := g.R.Range(1, 24)
+		if g.R.Chance(1, 4) {
+			n = g.R.Range(15, 70)
+		}
+		var d string
+		switch g.R.Intn(4) {
+		case 0:
+			d = "1" + strings.Repeat("0", n-1)
+		case 1:
+			d = strings.Repeat("1", n)
+		case 2:
+			d = strings.Repeat(g.R.Pick("7", "1", "3", "5"), n)
+		default:
+			d = strings.Repeat(g.R.Pick("9", "8", "9", "2"), n)
+		}
+		base, prefix := 10, ""
+		switch g.R.Intn(4) {
+		case 0:
+			base, prefix = 16, "0x"
+		case 1:
+			if strings.Trim(d, "01") == "" {
+				base, prefix = 2, "0b"
+			}
+		case 2:
+			if strings.Trim(d, "01234567") == "" {
+				base, prefix = 8, "0"
+			}
+		}
+		v, ok := new(big.Int).SetString(d, base)
+		if !ok {
+			return g.leaf("ScalarLnumber", "7")
+		}
+		kind := "ScalarLnumber"
+		if v.Cmp(big.NewInt(math.MaxInt64)) > 0 {
+			kind = "ScalarDnumber"
+		}
+		return g.leaf(kind, prefix+d)
 	}
 	return g.leaf("ScalarLnumber", strconv.Itoa(g.R.Intn(1000)))
 }
